@@ -66,7 +66,7 @@ func generateICMPRequestID() uint64 {
 
 // deriveICMPSessionKey performs ECDH key exchange and derives a session key for ICMP sessions.
 // The ephPrivKey is zeroed after use.
-// Returns nil if the remote key is zero (encryption disabled), or an error if ECDH fails.
+// Returns an error if the remote key is zero (no key exchange) or ECDH fails.
 func deriveICMPSessionKey(
 	ephPrivKey *[32]byte,
 	ephPubKey [32]byte,
@@ -75,7 +75,7 @@ func deriveICMPSessionKey(
 ) (*crypto.SessionKey, error) {
 	var zeroKey [protocol.EphemeralKeySize]byte
 	if remotePubKey == zeroKey {
-		return nil, nil
+		return nil, fmt.Errorf("ICMP_OPEN_ACK without ephemeral key")
 	}
 
 	sharedSecret, err := crypto.ComputeECDH(*ephPrivKey, remotePubKey)
